@@ -967,10 +967,11 @@ func (s *State) evalForInteger(fe *ast.ForExpression, start *int64, end int64, n
 			r := nextEval.(object.ReturnValue)
 			switch r.ControlType {
 			case token.BREAK:
-				return lastEval
+				return object.CopyRegister(lastEval)
 			case token.CONTINUE:
 				continue
 			case token.RETURN:
+				r.Value = object.CopyRegister(r.Value)
 				return r
 			default:
 				return s.Errorf("for loop unexpected control type %s", r.ControlType.String())
@@ -979,7 +980,7 @@ func (s *State) evalForInteger(fe *ast.ForExpression, start *int64, end int64, n
 			lastEval = nextEval
 		}
 	}
-	return lastEval
+	return object.CopyRegister(lastEval) // the loop's register is about to be released and reused.
 }
 
 func (s *State) evalForSpecialForms(fe *ast.ForExpression) (object.Object, bool) {
